@@ -14,7 +14,7 @@ Not decided: completeness, group ordering, liveness ordering (properties of iter
 """
 from ..inline import inline_view
 from ..mir import AnchorLost
-from ..util import truth_edges, closure_family, df_of, fn_short, in_set, backward_slice, operand_path, path_last, switch_on, switch_edges, field_writers
+from ..util import dj_of, truth_edges, closure_family, df_of, fn_short, in_set, backward_slice, operand_path, path_last, switch_on, switch_edges, field_writers
 from ..callgraph import CallGraph
 from .c20 import slice_fields
 
@@ -72,7 +72,11 @@ def r1(ctx, facts):
                 cut.append((sw, ttg))
         if not gates:
             raise AnchorLost("DefaultPolicy::%s: is_datacenter_failover_possible is never consulted" % meth)
-        reach = b.reachable_from(0, removed_edges=cut)
+        # follow only executions in which neither gate came out true - whether the code branches on the calls directly or
+        # first stores `a || b` in a boolean
+        TRUE = ("in", frozenset([1]))
+        gate_bbs = [g.bb for g in gates + isn]
+        reach = dj_of(b, facts).feasible_reach(0, removed_edges=cut, drop_state=lambda stt: any(stt.get(("call", gb)) == TRUE for gb in gate_bbs))
         sites = global_sites(b, df)
         if not sites:
             raise AnchorLost("DefaultPolicy::%s: no selection from the global node set found" % meth)
